@@ -262,7 +262,7 @@ def columnDfs (i : Input) (fuel : Nat) : Option Output :=
            xprune := b.xprune, marker := st.marker, parent := st.parent, xplore := st.xplore,
            xsup := b.xsup, supno := b.supno, lsub := b.lsub, xlsub := b.xlsub }
 
-/-- a fuel that always suffices on well-formed states (Lemmas/ColDfs.lean: `run_fuel_bound`):
+/-- a fuel that always suffices on well-formed states (Lemmas/ColDfs.lean: `columnDfs_eq_dfsList`, `rootStep_spec`):
 every reached representative costs at most its pruned list length + 1 transitions -/
 def fuelBound (i : Input) : Nat := (i.jcol.toNat + 1) * (i.lsub.size + 2)
 
